@@ -160,7 +160,7 @@ func loadProgram(dir string) (*Program, error) {
 				}
 				fi := &FuncInfo{Key: qualName(pk.Name, recvBaseName(fd), name), Pkg: pk, Decl: fd, Obj: obj,
 					Loops: map[int]*SpecInfo{}, IsSpecFile: isSpec}
-				if isSpec && (strings.HasPrefix(name, "sp_") || strings.HasPrefix(name, "op_")) {
+				if isSpec && (strings.HasPrefix(name, "sp_") || strings.HasPrefix(name, "op_") || strings.HasPrefix(name, "atominv_")) {
 					p.pure[obj] = fi
 				}
 				if isSpec && strings.HasPrefix(name, "gh_") {
